@@ -25,6 +25,8 @@ def reasm(prop,extra_quick=(),extra_thorough=()):
     jobs.append(job("api-k3-mif5",".","VH_Reassembler",[prop+"/"],{"k":3,"maxInFlight":5},Q,bounds="k=3 operations then Close; maxInFlight=5 (nothing leaves by overflow: three events can sit in the buffer at Close)"))
     jobs.append(job("api-k4-mif5",".","VH_Reassembler",[prop+"/"],{"k":4,"maxInFlight":5},T,bounds="k=4 operations then Close; maxInFlight=5"))
     jobs.append(job("alphabet-k5-mif5",".","VH_Reassembler",[prop+"/"],{"k":5,"maxInFlight":5,"alphabet":2},Q,bounds="k=5 operations over a small alphabet (sequence = symbolic base + {0,1}; SYSCALL | PROCTITLE | EOE; Maintain) then Close; maxInFlight=5"))
+    for sc in range(4):
+        jobs.append(job(f"script-{sc}",".","VH_Reassembler",[prop+"/"],{"k":0,"maxInFlight":4,"script":sc},Q,bounds=f"fixed history #{sc} of 14-24 pushes: events that collect 10-20 records each, interleaved with their neighbours, EOEs, then Close; maxInFlight=4; symbolic sequence base"))
     jobs.append(job("alphabet-k4-mif5",".","VH_Reassembler",[prop+"/"],{"k":4,"maxInFlight":5,"alphabet":3},Q,bounds="k=4 operations over sequence = base + {0,1,2} x 3 record kinds; maxInFlight=5 (three events buffered at once)"))
     jobs.append(job("alphabet-k4-mif2",".","VH_Reassembler",[prop+"/"],{"k":4,"maxInFlight":2,"alphabet":3},Q,bounds="k=4 operations over sequence = base + {0,1,2} x 3 record kinds; maxInFlight=2"))
     jobs.append(job("alphabet-k6-mif2",".","VH_Reassembler",[prop+"/"],{"k":6,"maxInFlight":2,"alphabet":2},T,bounds="k=6 over base + {0,1} x 3 record kinds; maxInFlight=2"))
@@ -56,6 +58,7 @@ c19=[job("nil-stream",".","VH_ReassemblerNilStream",["C19/"],bounds="symbolic ma
 c19.append(job("api-k2-postclose2",".","VH_Reassembler",["C19/"],{"k":2,"maxInFlight":2,"postclose":2},Q,bounds="k=2 then Close, then 2 more pushes (symbolic), then Maintain and Close: both fail and deliver nothing, whatever the late pushes left buffered"))
 c19.append(job("api-k2-postclose2-mif0",".","VH_Reassembler",["C19/"],{"k":2,"maxInFlight":0,"postclose":2},T,bounds="as api-k2-postclose2 with maxInFlight=0"))
 c19.append(job("api-k3-postclose1",".","VH_Reassembler",["C19/"],{"k":3,"maxInFlight":2,"postclose":1},T,bounds="k=3, Close, 1 push, Maintain, Close"))
+c19.append(job("clock-k1-postclose1-5ms",".","VH_Reassembler",["C19/"],{"k":1,"maxInFlight":2,"postclose":1,"timeout_mode":3},Q,clock="sym",bounds="one operation, Close, one push, then Maintain and Close with a 5 ms timeout and symbolic clock readings: nothing is delivered after Close even when the late push has gone stale"))
 c19.append(job("api-k3-maxduration",".","VH_Reassembler",["C19/"],{"k":3,"maxInFlight":2,"timeout_mode":6},Q,bounds="k=3 then Close; timeout = the largest time.Duration (2^63-1 ns)"))
 c19.append(job("api-k3-250years",".","VH_Reassembler",["C19/"],{"k":3,"maxInFlight":1,"timeout_mode":7},Q,bounds="k=3 then Close; timeout = 250 years"))
 for tm,name in [(1,"-1s"),(2,"0"),(3,"5ms"),(4,"2s")]:
@@ -107,6 +110,7 @@ C["C16"]={"jobs":[job("setters",".","VH_ClientSetters",["C16/"],{},Q,bounds="7 s
 C["C17"]={"jobs":[job("history-k3",".","VH_ClientHistory",["C17/"],{"k":3},QO,bounds="histories of 3 operations from {setter NoWait, SetPID NoWait, setter WaitForReply, WaitForPendingACKs, GetRules, Close}, kernel errno per request symbolic"),
    job("history-k4",".","VH_ClientHistory",["C17/"],{"k":4},Q,bounds="histories of 4 operations"),
    job("many-nowait-setters",".","VH_ClientManyNoWait",["C17/"],{"count":40},Q,bounds="40 NoWait setters in a row, then WaitForPendingACKs: every ACK consumed exactly once"),
+   job("nowait-setters-behind-a-burst",".","VH_ClientManyNoWait",["C17/"],{"count":3,"burst":25},Q,bounds="3 NoWait setters, 25 unsolicited records queued in front of the ACKs, WaitForPendingACKs: every ACK consumed exactly once"),
    job("history-k3-sendfail",".","VH_ClientHistory",["C17/"],{"k":3,"sendfail":1},Q,bounds="histories of 3 operations in which a NoWait setter's Send may fail, or the clear-PID Send inside Close: no ACK is awaited for it, the socket is closed all the same"),
    job("history-k4-sendfail",".","VH_ClientHistory",["C17/"],{"k":4,"sendfail":1},T,bounds="histories of 4 operations with failing NoWait Sends"),job("history-k5",".","VH_ClientHistory",["C17/"],{"k":5},T,bounds="histories of 5 operations"),
    job("close-2threads",".","VH_ClientCloseConcurrent",["C17/"],{"threads":2,"preemptions":3},Q,no_native=True,bounds="Close from 2 goroutines at once (with and without a prior SetPID), every interleaving at synchronisation operations with at most 3 preemptions, race detection"),
@@ -167,7 +171,8 @@ for L in (0,1,2,3,4,5,8,15,16,17,47,48,49):
     c05.append(job(f"saddr-len{L}","auparse","VH_SaddrTotal",["C05/"],{"len":L,"sym":8},Q if L in (3,4,15,16,48) else T,bounds=f"SOCKADDR saddr of {L} hex digits: family concrete (unix/ipv4/ipv6/netlink) or 4 symbolic digits, next 8 digits symbolic"))
 C["C05"]={"jobs":c05,"assumptions":PARSE_ASSUME,"outside":["inputs longer than the stated lengths","symbolic non-ASCII bytes"]}
 
-c04=[job("named-types","auparse","VH_Header",["C04/"],{"typemode":0,"secdigits":10,"seqdigits":10,"bodymax":3},Q,bounds="6 named types; seconds 10 symbolic digits < 2^34, ms 3 symbolic digits, sequence 10 symbolic digits < 2^32; body 0..3 symbolic ASCII bytes"),
+c04=[job("named-types-11-digit-seconds","auparse","VH_Header",["C04/"],{"typemode":0,"secdigits":11,"seqdigits":10,"bodymax":1},Q,bounds="seconds of 11 symbolic digits < 2^34 with a 10-digit sequence (the widest header), body 0..1 bytes"),
+     job("named-types","auparse","VH_Header",["C04/"],{"typemode":0,"secdigits":10,"seqdigits":10,"bodymax":3},Q,bounds="6 named types; seconds 10 symbolic digits < 2^34, ms 3 symbolic digits, sequence 10 symbolic digits < 2^32; body 0..3 symbolic ASCII bytes"),
      job("unknown-types","auparse","VH_Header",["C04/"],{"typemode":1,"secdigits":10,"seqdigits":10,"bodymax":0},Q,bounds="type symbolic over the unnamed codes < 1000 or >= 2600 (written as UNKNOWN[n]); symbolic digits as above; empty body"),
      job("lowercase","auparse","VH_Header",["C04/"],{"typemode":0,"lower":1,"secdigits":9,"seqdigits":5,"bodymax":0},Q,bounds="type name written in lower case"),
      job("short-fields","auparse","VH_Header",["C04/"],{"typemode":0,"secdigits":1,"seqdigits":1,"bodymax":2},Q,bounds="one-digit seconds and sequence"),
@@ -245,6 +250,7 @@ for (a,b,name) in [(2,3,"fieldcount-x-buflen"),(10,11,"values1-x-values2"),(6,9,
 for rs in (0,1):
     c13.append(job("decode-field-value"+("-resolve" if rs else ""),"rule","VH_DecodeFieldValue",["C13/"],{"resolve":rs},Q,no_native=bool(rs),expect=["C13/field-value-decoded"],alloc_cap=65536,loop_cap=3000,
        bounds="one-filter rule with the field word any UAPI field code (or an unknown one), any of the 8 operators and a symbolic 32-bit value word, ToCommandLine with resolveIds=%s%s"%("true" if rs else "false"," (user/group lookups answered by the stub database)" if rs else "")))
+c13.append(job("build-field-values","rule","VH_BuildFieldValues",["C13/"],{},Q,expect=["C13/hostile-value-accepted"],bounds="every field name (and an unknown one) x 23 hostile right-hand sides (empty, blank, signs, half numbers, out of range, non-ASCII) x 4 operators x 4 lists through Build (and ToCommandLine when accepted)"))
 c13.append(job("decode-short","rule","VH_DecodeShort",["C13/"],{"budget_is_violation":1},Q,alloc_cap=65536,loop_cap=3000,bounds="buffers of length 0,1,4,1039,1040,1041,1044 with the scalar header words and the tail symbolic"))
 for c,name in enumerate(["syscall-digits","65-filters","garbage-strings","nil-and-odd","filter-type","big-syscall-numbers"]):
     c13.append(job("build-"+name,"rule","VH_BuildHostile",["C13/"],{"case":c},Q,bounds={"syscall-digits":"syscall given as 0..5 symbolic decimal digits, optionally negative","65-filters":"65 filters + key","garbage-strings":"list/action/field/operator/value replaced by 0..2 symbolic ASCII bytes","nil-and-odd":"nil rule, nil pointers of each type, foreign Rule implementation, DeleteAllRule","filter-type":"symbolic FilterType byte","big-syscall-numbers":"2047, 2048, 2049, 2^31-1, 2^31, 2^32-1, 2^32, -1, 10^20-1"}[name]))
@@ -347,6 +353,7 @@ c15.append(job("resolve-isolation-hardcoded","aucoalesce","VH_ResolveIsolation",
 c15.append(job("resolve-isolation-caches","aucoalesce","VH_ResolveIsolation",["C15/"],{"mode":1},Q,no_native=True,bounds="explicit user/group caches against a stub database where uid 1000/33 and gid 1000/33 have different names; 4 lookup histories (incl. lookups in an unrelated pair of caches) before ResolveIDsFromCaches"))
 c15.append(job("concurrent-2",  "aucoalesce","VH_ConcurrentResolve",["C15/"],{"threads":2,"preemptions":2},Q,no_native=True,bounds="2 goroutines, each coalescing its own (different) group and resolving IDs against shared user/group caches; every interleaving at synchronisation operations with at most 2 preemptions; race detection (heap cells and maps) by vector clocks; results equal the sequential ones"))
 c15.append(job("concurrent-2-expired",  "aucoalesce","VH_ConcurrentResolve",["C15/"],{"threads":2,"preemptions":2,"expired":1},Q,no_native=True,bounds="as concurrent-2 with caches whose entries are out of date as soon as they are stored (negative expiration): every lookup refreshes"))
+c15.append(job("concurrent-2-nonsyscall",  "aucoalesce","VH_ConcurrentResolve",["C15/"],{"threads":2,"preemptions":2,"groupbase":2},Q,no_native=True,bounds="as concurrent-2 with the two groups whose first record is not a SYSCALL record (USER_LOGIN, AVC): record-type normalisation lookups race"))
 c15.append(job("concurrent-3",  "aucoalesce","VH_ConcurrentResolve",["C15/"],{"threads":3,"preemptions":2},T,no_native=True,bounds="3 goroutines, at most 2 preemptions"))
 C["C15"]={"jobs":c15,"assumptions":COAL_ASSUME,"outside":["arbitrary message text (C05 covers the parser's totality)","ResolveIDs against real user databases"]}
 
